@@ -58,6 +58,7 @@ class H(explore.Harness):
         self.responder = {}  # cid -> list of pending (tag) for which a response has not been delivered
         self.partial = None  # (conn, rest bytes)
         self.closed_conns = set()
+        self.rst_due = {}
         self.abandon_marks = []
         self.app_closed = False
         self.req_time = {}
@@ -148,7 +149,7 @@ class H(explore.Harness):
             if k not in self.tasks and k < self.p["callers"]:
                 ev.append(f"req:{k}")
                 break  # symmetric callers: only the next one may start (canonical order)
-        live = [c for c in self.net.conns if c.transport is not None and not c.transport.is_closing() and c.peer_open]
+        live = [c for c in self.net.conns if c.transport is not None and not c.transport.is_closing() and c.peer_open and not getattr(c, "rst_pending", False)]
         for c in live:
             q = self.responder.get(c.cid, [])
             if self.partial and self.partial[0] is c:
@@ -162,6 +163,10 @@ class H(explore.Harness):
                 ev.append(f"event:{c.cid}")
             ev.append(f"peer-close:{c.cid}")
             ev.append(f"peer-reset:{c.cid}")
+            if self.loop.has_ready() and self.p.get("rst_window") and c.cid not in self.rst_due:
+                # the peer's RST reaches the kernel while the loop is busy: it is only seen at the next poll, i.e. after the handles that are
+                # ready now and those they schedule have run (until then write_eof() on that socket fails)
+                ev.append(f"rst-arrives:{c.cid}")
         for k, t in self.tasks.items():
             if not t.done():
                 ev.append(f"cancel:{k}")
@@ -190,6 +195,11 @@ class H(explore.Harness):
         label = m[i]
         if label == "run1":
             self.loop.run_batch()
+            for cid in list(self.rst_due):
+                self.rst_due[cid] -= 1
+                if self.rst_due[cid] <= 0:
+                    del self.rst_due[cid]
+                    self.net.conns[cid].peer_reset()
             self._check()
             return
         if self.loop.has_ready():
@@ -241,6 +251,11 @@ class H(explore.Harness):
         elif kind == "peer-reset":
             c = self.net.conns[int(arg)]
             c.peer_reset()
+            self.partial = None if self.partial and self.partial[0] is c else self.partial
+        elif kind == "rst-arrives":
+            c = self.net.conns[int(arg)]
+            c.peer_reset_arrives()
+            self.rst_due[c.cid] = 2
             self.partial = None if self.partial and self.partial[0] is c else self.partial
         elif kind == "app-close":
             self.app_closed = True
@@ -326,11 +341,17 @@ class H(explore.Harness):
         from vt import canon as _c
 
         generic = _c.canon(self.conn, depth=3, skip=("owner", "_loop", "_connect_lock", "pairing_data", "_connector"))
-        return (prs, ts, conns, timers, self.partial is not None, len(self.loop._ready), self.preempt, tuple(self._seen_events()), self.conn.closing, self.conn.transport is None,
+        return (tuple(sorted(self.rst_due.items())), prs, ts, conns, timers, self.partial is not None, len(self.loop._ready), self.preempt, tuple(self._seen_events()), self.conn.closing, self.conn.transport is None,
                 self.conn._concurrency_limit._value, len(self.net.pending()), generic)
 
     def finish(self):
         out = []
+        for _ in range(2):  # resets the kernel already has are seen by the loop at its next polls
+            if self.loop.has_ready():
+                self.loop.run_batch()
+        for cid in list(self.rst_due):
+            del self.rst_due[cid]
+            self.net.conns[cid].peer_reset()
         # requests written on the wire must fail within 30 s (+eps) of virtual time absent further events
         outstanding = [k for k, t in self.tasks.items() if not t.done() and str(k) in self.sent_on]
         self.loop.advance(30.5)
@@ -479,6 +500,8 @@ def run(ctx):
         dict(limit=2, callers=2, P=1, secure=False),
         dict(limit=3, callers=3, P=0 if quick else 1, secure=False),
         dict(limit=1, callers=2, P=0 if quick else 1, secure=True),
+        # a reset that the kernel has but the loop has not seen yet, racing cancellations and the 30 s timer
+        dict(limit=1, callers=2, P=1 if quick else 2, secure=False, rst_window=True),
         # the same spaces under other environments: byte-wise reads; chunked responses in reads that end inside a block
         dict(limit=1, callers=2, P=0, secure=True, env=dict(delivery="bytes")),
         dict(limit=2, callers=2, P=0, secure=False, resp="chunked", env=dict(delivery="3/4")),
